@@ -48,6 +48,15 @@ pub fn bytes_le_to_fr(input: &[u8]) -> (Fr, usize) {
     )
 }
 
+/// Checks that `input` starts with the canonical little-endian encoding of a field element,
+/// i.e. with an integer smaller than the field modulus.
+#[inline(always)]
+pub fn is_canonical_fr_bytes_le(input: &[u8]) -> bool {
+    let el_size = fr_byte_size();
+    input.len() >= el_size
+        && BigUint::from_bytes_le(&input[0..el_size]) < BigUint::from(<Fr as PrimeField>::MODULUS)
+}
+
 #[inline(always)]
 pub fn fr_to_bytes_le(input: &Fr) -> Vec<u8> {
     let input_biguint: BigUint = (*input).into();
